@@ -475,7 +475,10 @@ TASK_KINDS = {
     'C03': {'flash': 4, 'recycle': 3, 'campaign': 3, 'drain_refill': 1, 'decanter': 2, 'crystalliser': 2, 'vlle': 1, 'editor': 3},
     'C04': {'flash': 5, 'recycle': 4, 'campaign': 4.5, 'drain_refill': 3, 'decanter': 1, 'crystalliser': 1, 'vlle': 0.5, 'editor': 3},
 }
-EDITOR_OPS = {'scale': 2, 'to_phase': 2, 'set_phases': 2, 'set_T': 1, 'set_P': 1, 'restart': 2,
+# react_flash (C03 only): a REACTIVE flash, vle(T, P, liquid_conversion=<reaction>), issued by another unit
+# operation on the same stream; it changes the totals by design and is not judged itself - the ordinary
+# flashes that follow on the same (warm) solver object are
+EDITOR_OPS = {'react_flash': 1.5, 'scale': 2, 'to_phase': 2, 'set_phases': 2, 'set_T': 1, 'set_P': 1, 'restart': 2,
               'reset_cache': 1.5, 'set_rows': 1, 'set_flow': 2, 'set_chem': 1.5}
 SCALE_FACTORS = [0.1, 0.25, 0.5, 2.0, 3.0, 10.0]
 TWIN_FACTORS = [2.0, 0.5, 3.0, 10.0, 0.1, 7.0]
@@ -1156,6 +1159,25 @@ class EqWorld(BaseWorld):
             return None
         return {'op': 'scale', 'stream': name, 'k': r.choice(ok)}
 
+    def gen_react_flash(self, name, r):
+        if self.prop != 'C03':
+            return None
+        pk = self.pk(name)
+        try:
+            sn = take_snap(self.streams[name])
+        except Exception:
+            return None
+        if not {'l', 'g'} <= set(sn.phases):
+            return None
+        tot = sn.totals()
+        present = [k for k in pk.vol if tot[k] > 0.]
+        if len(pk.vol) < 2 or not present:
+            return None
+        a = r.choice(present)
+        b = r.choice([k for k in pk.vol if k != a])
+        return {'op': 'react_flash', 'stream': name, 'reactant': pk.ids[a], 'product': pk.ids[b],
+                'X': r.choice([0.1, 0.2, 0.5]), 'T': self.draw_T(r), 'P': self.draw_P(r)}
+
     def gen_to_phase(self, name, r):
         pk = self.pk(name)
         try:
@@ -1275,6 +1297,9 @@ class EqWorld(BaseWorld):
             nz = tot[tot > 0.]
             return bool(nz.size and nz.min() * ev['k'] >= FLOW_MIN * (1 - 1e-9)
                         and nz.max() * ev['k'] <= FLOW_MAX * (1 + 1e-9))
+        if op == 'react_flash':
+            return (self.prop == 'C03' and {'l', 'g'} <= set(phases) and ev.get('reactant') in pk.pos
+                    and ev.get('product') in pk.pos and ev['reactant'] != ev['product'] and 0 < ev.get('X', 0) < 1)
         if op == 'to_phase':
             return ev['phase'] in phases
         if op == 'set_phases':
@@ -2070,6 +2095,13 @@ class EqWorld(BaseWorld):
                 s.imol[p] = np.array(ev['rows'][p], dtype=float)
         elif op == 'scale':
             s.scale(ev['k'])
+        elif op == 'react_flash':
+            rxn = tmo.Reaction({ev['reactant']: -1, ev['product']: 1}, reactant=ev['reactant'], X=ev['X'],
+                               chemicals=pk.compiled)
+            if not is_twin:
+                self.stats['fault:reactive_flash_by_another_unit'] += 1
+            with np.errstate(all='ignore'):
+                s.vle(T=ev['T'], P=ev['P'], liquid_conversion=rxn)
         elif op == 'to_phase':
             total = dense(s.mol)
             s.empty()
